@@ -44,7 +44,13 @@ PROP = dict(
          "Spec.In.readInboundWith (the grammar's reading of every line it reads, the line's own effects for every outside line, in "
          "line order; tag B:ctx; batches with a malformed graphics part stay B:outdom); (f) lines of 201-2000 bytes (title, text "
          "lines, calibration payload, non-grammar line, register id); every record whose input or output carries a byte string longer "
-         "than 200 bytes (and every third other record) is executed a second time with DebugRWPhelpers on. "
+         "than 200 bytes (and every third other record) is executed a second time with DebugRWPhelpers on; (h) JSON-carrying lines ('{' state, "
+         "'[' message list, SetNetworkConfig=) that are a complete valid JSON value followed by one of 28 trailers (stray bracket, comma, "
+         "colon, quote, garbage, blanks / TAB / CR / BOM, a protocol line with and without a separating blank or LF, a second JSON value, "
+         "NUL, a high byte) or preceded by a blank / TAB / CR / BOM, two values glued ({..}{..}, {..}[..], [..][..]), a JSON value with a "
+         "random grammar line run on: 6 fixed values x all trailers / leaders / second values alone and between two state lines + 150 "
+         "random ones (the oracle entry computed with encoding/json.Unmarshal says what the unchanged code yields: only trailing blanks "
+         "keep the line one JSON value). "
          "(Family c01 additionally runs ein.rt = decoder(encoder(msgs)) on every random message list and "
          "checks C02.roundtrip_in's conclusion on the implementation.)",
     trusted_base=["regexp: replaced by hand-written byte matchers (Model/DecIn.lean) for the six patterns; the pattern sources are "
